@@ -464,3 +464,186 @@ def c01_g(ctx):
                                        ['all', 'one'], 1),
                    needed=['shape-ran', 'shape-with-join', 'quiescent'],
                    max_paths=5000000, shard_depth=8, procs=14)
+
+
+# ---------------------------------------------------------------------------
+# C01.F  a declared error raised at ANY evaluation / action start never
+# leaves the run hanging
+# ---------------------------------------------------------------------------
+FAULT_WF = """
+version: '2.0'
+wf:
+  input:
+    - xs: [1, 2]
+    - d: 1
+  vars:
+    v: <% $.d %>
+  output:
+    out: <% $.get(p, none) %>
+  task-defaults:
+    on-error: [cleanup]
+  tasks:
+    a:
+      action: std.echo output=<% $.v %>
+      wait-before: <% $.d %>
+      publish:
+        p: <% task().result %>
+      on-success: [b, c]
+    b:
+      with-items: i in <% $.xs %>
+      concurrency: 1
+      action: std.echo output=<% $.i %>
+      retry:
+        count: 1
+        delay: 0
+      on-success: j
+    c:
+      action: std.noop
+      wait-after: <% $.d %>
+      timeout: 50
+      on-complete: j
+    j:
+      join: all
+      action: std.echo output=<% $.p %>
+      publish:
+        q: <% task().result %>
+    cleanup:
+      action: std.noop
+"""
+
+
+def _fault_case(kind, n_max):
+    """the k-th call (k a solver choice) of a choke point raises a DECLARED
+    error: expression evaluation -> YaqlEvaluationException, action
+    parameter check -> mistral_lib ActionException"""
+    def case():
+        from vt.world import World
+        from vt import env as venv
+        from mistral import expressions
+        from mistral import exceptions as exc
+        from mistral_lib import exceptions as lib_exc
+        from mistral_lib import actions as ml
+        k = choice('fault_at', list(range(n_max)))
+        st = {'n': 0, 'fired': None}
+        real_eval = expressions.evaluate
+
+        def evaluate(expression, context):
+            if isinstance(expression, str) and ('<%' in expression
+                                                or '{{' in expression):
+                st['n'] += 1
+                if st['n'] - 1 == k and kind == 'eval':
+                    st['fired'] = expression
+                    raise exc.YaqlEvaluationException(
+                        'injected: cannot evaluate %s' % expression)
+            return real_eval(expression, context)
+
+        w = World([FAULT_WF], expr_stub=evaluate if kind == 'eval' else None)
+        sig = 'C01.F:%s' % kind
+        with w:
+            if kind == 'action':
+                from mistral.engine import actions as eng_actions
+                real_sched = eng_actions.RegularAction.schedule
+
+                def schedule(self, *a, **kw):
+                    st['n'] += 1
+                    if st['n'] - 1 == k:
+                        st['fired'] = self.action_desc.name
+                        raise lib_exc.ActionException(
+                            'injected: invalid input for %s'
+                            % self.action_desc.name)
+                    return real_sched(self, *a, **kw)
+                w._stack.enter_context(venv.patched(
+                    eng_actions.RegularAction, 'schedule', schedule))
+
+            def timers_last(events):
+                for e in events:
+                    if not (e.kind == 'job' and
+                            'fail_task_if_incomplete' in e.label):
+                        return e
+                return events[0]
+            wid = w.start('wf')
+            if wid is not None:
+                try:
+                    w.run(chooser=timers_last, max_events=200)
+                except symx.HarnessError:
+                    check(False, 'run-does-not-come-to-rest',
+                          {'signature': sig + ':endless',
+                           'fired': st['fired']})
+                    return
+            assume(st['fired'] is not None)      # k-th call exists
+            reach('fault-injected')
+            info = {'fired': st['fired'], 'k': k,
+                    'errors': [(m, repr(e)[:160]) for m, e in w.errors]}
+            bad = [(m, repr(e)[:200]) for m, e in w.errors
+                   if not isinstance(e, (exc.MistralException,
+                                         exc.MistralError,
+                                         lib_exc.MistralException))]
+            check(not bad, 'undeclared-error-escaped',
+                  dict(info, signature=sig + ':undeclared'))
+            escaped_jobs = [(m, repr(e)[:160]) for m, e in w.errors
+                            if m.startswith('job:')]
+            check(not escaped_jobs, 'scheduler-job-raised',
+                  dict(info, signature=sig + ':job-raised:%s' % (
+                      escaped_jobs and escaped_jobs[0][0].split('.')[-1]),
+                      jobs=escaped_jobs))
+            if wid is None:
+                reach('start-refused')
+                rows = w.rows('WorkflowExecution')
+                check(all(x['state'] in ('ERROR', 'SUCCESS', 'CANCELLED')
+                          for x in rows),
+                      'refused-start-left-a-running-execution',
+                      dict(info, signature=sig + ':start-left-running'))
+                return
+            x = w.wf_ex(wid)
+            info['wf'] = x['state']
+            info['tasks'] = [(t['name'], t['state']) for t in w.tasks(wid)]
+            reach('ended-' + x['state'])
+            check(x['state'] in ('SUCCESS', 'ERROR'),
+                  'run-hangs-after-a-declared-error',
+                  dict(info, signature=sig + ':hang:%s' % x['state']))
+            check(all(t['state'] in ('SUCCESS', 'ERROR', 'CANCELLED')
+                      for t in w.tasks(wid)) or x['state'] == 'ERROR',
+                  'task-left-unfinished',
+                  dict(info, signature=sig + ':task-unfinished'))
+            check(not w.swallowed, 'post-commit-operation-failed',
+                  dict(info, signature=sig + ':post-commit',
+                       swallowed=[repr(s_)[:160] for s_ in w.swallowed]))
+    return case
+
+
+@obligation(
+    'C01.F', engine='symx+world(minidb)',
+    functions=['mistral.engine.task_handler:run_task',
+               'mistral.engine.task_handler:_on_action_complete',
+               'mistral.engine.task_handler:continue_task',
+               'mistral.engine.task_handler:complete_task',
+               'mistral.engine.task_handler:force_fail_task',
+               'mistral.engine.task_handler:_refresh_task_state',
+               'mistral.engine.task_handler:_scheduled_on_action_complete',
+               'mistral.engine.policies:_continue_task',
+               'mistral.engine.policies:_complete_task',
+               'mistral.engine.workflow_handler:check_and_complete',
+               'mistral.engine.workflow_handler:force_fail_workflow',
+               'mistral.engine.workflows:Workflow.start',
+               'mistral.engine.default_engine:DefaultEngine.start_workflow'],
+    bounds='one workflow using vars, output, task-defaults, wait-before, '
+           'wait-after, timeout, retry, with-items with concurrency, a join '
+           'and publish; the k-th expression evaluation (k < 70, solver '
+           'choice) raises YaqlEvaluationException, or the k-th action start '
+           '(k < 12) raises mistral_lib ActionException; FIFO delivery, '
+           'timers last',
+    stubs=['minidb', 'QueueRPC', 'FakeScheduler', 'FakeExecutor running '
+           'the real std actions', 'post-commit queue inline'],
+    outside='undeclared (non-Mistral) exceptions, database errors, other '
+            'delivery orders, more than one fault',
+    timeout=(400, 1200))
+def c01_f(ctx):
+    """wherever a declared error is raised - in any expression evaluation or
+    at any action start, inside an RPC handler or a scheduler job - the run
+    comes to rest finished (SUCCESS / ERROR), nothing is left running, no
+    scheduler job or entry point lets an undeclared error escape"""
+    boot()
+    yield Case('eval', _fault_case('eval', 70),
+               needed=['fault-injected', 'ended-ERROR'], max_paths=100000)
+    yield Case('action', _fault_case('action', 12),
+               needed=['fault-injected', 'ended-ERROR'], max_paths=100000)
